@@ -88,7 +88,8 @@ class Engine:
     minimise_budget = {"quick": 200, "thorough": 1000}
     rule = ("one run = one seeded batch of 1-8 hosts of one vendor; each host's world state (old, new) is a shipped corpus pair "
             "(forward or reversed), a cross product of two samples of the vendor, or a seeded mutation (rows dropped / grafted "
-            "from other samples); the configs are written to old/<host>.cfg and new/<host>.cfg by the vendor formatter in a "
+            "from other samples), a sample with a multi-line VLAN list inside an interface of which some lines stay, or a change of "
+            "nesting only; the configs are written to old/<host>.cfg and new/<host>.cfg by the vendor formatter in a "
             "scratch directory listed in a drawn order, then the real api.file_patch and api.file_diff run through the real "
             "Parallel on simulated multiprocessing (pool size, max_tasks, delays, schedule drawn) and each host's patch and diff "
             "text is compared with the device front end on the trees parsed from the same files. Non-trivial = >=1 host with a "
